@@ -46,3 +46,125 @@ fn h_w_cut_boundary() {
     w_cut_boundary::cut_zero_is_a_no_op();
     w_cut_boundary::cut_every_position_matches_vec_model();
 }
+
+// ---------------------------------------------------------------------------
+// BOUNDED stand-in for the whole Message API (kind=witness: never run by Kani, never counted as proved).  It is run on the
+// real code only when the Verus unit `message` cannot ingest a changed function (the unit is then UNDECIDED): 4000
+// deterministic pseudo-random sequences of 24 operations over a pool of up to 6 messages that share buffers (clone /
+// slice / cut / remove_front / header / concatenate / ==), each message compared after every step with a plain
+// Vec<u8> model through len(), iter(), to_vec() and ==.  Bound: payloads of 0..=9 bytes, pool of 6, 24 steps, 4000
+// seeds.
+// ---------------------------------------------------------------------------
+#[cfg(vx_replay)]
+struct VxLcg(u64);
+#[cfg(vx_replay)]
+impl VxLcg {
+    fn next(&mut self, n: usize) -> usize {
+        self.0 = self.0.wrapping_mul(6364136223846793005).wrapping_add(1442695040888963407);
+        ((self.0 >> 33) as usize) % n.max(1)
+    }
+}
+#[cfg(vx_replay)]
+fn vx_same(m: &crate::Message, v: &Vec<u8>, what: &str, seed: u64, step: usize) {
+    assert_eq!(m.len(), v.len(), "len() after {what} (seed {seed}, step {step})");
+    assert_eq!(m.is_empty(), v.is_empty(), "is_empty() after {what} (seed {seed}, step {step})");
+    assert_eq!(&m.to_vec(), v, "to_vec() after {what} (seed {seed}, step {step})");
+    assert!(m.iter().eq(v.iter().cloned()), "iter() after {what} (seed {seed}, step {step})");
+}
+
+//# id=witness.message_api_matches_the_vector_model props=C07 kind=witness pair=message.Message.concatenate.appends,message.Message.concatenate.safety,message.Message.slice_inner.is_subrange,message.Message.slice_inner.safety,message.Message.cut.returns_prefix,message.Message.cut.safety,message.Message.remove_front.keeps_suffix,message.Message.remove_front.safety,message.Message.header_inner.prepends,message.Message.eq.equal_iff_same_bytes,message.Message.eq.safety,message.Message.len.len_is_view_len,message.Message.new_inner.denotes_body
+#[cfg(vx_replay)]
+#[test]
+fn h_w_message_model() {
+    use crate::Message;
+    for seed in 0..4000u64 {
+        let mut g = VxLcg(seed.wrapping_mul(0x9e3779b97f4a7c15) ^ 0x5851f42d4c957f2d);
+        let mut pool: Vec<(Message, Vec<u8>)> = Vec::new();
+        let mut fresh: u8 = 0;
+        for step in 0..24usize {
+            let op = if pool.is_empty() { 0 } else { g.next(10) };
+            let i = g.next(pool.len());
+            let j = g.next(pool.len());
+            match op {
+                0 => {
+                    let n = g.next(10);
+                    let bytes: Vec<u8> = (0..n).map(|_| { fresh = fresh.wrapping_add(1); fresh }).collect();
+                    let m = Message::new(bytes.clone());
+                    vx_same(&m, &bytes, "new", seed, step);
+                    if pool.len() < 6 { pool.push((m, bytes)); } else { pool[i] = (m, bytes); }
+                }
+                1 => {
+                    let c = pool[i].clone();
+                    vx_same(&c.0, &c.1, "clone", seed, step);
+                    if pool.len() < 6 { pool.push(c); } else { pool[j] = c; }
+                }
+                2 => {
+                    let (mut m, v) = pool[i].clone();
+                    let a = g.next(v.len() + 1);
+                    let b = a + g.next(v.len() + 1 - a);
+                    match g.next(3) {
+                        0 => { m.slice(a..b); let w = v[a..b].to_vec(); vx_same(&m, &w, "slice(a..b)", seed, step); pool[j] = (m, w); }
+                        1 => { m.slice(a..); let w = v[a..].to_vec(); vx_same(&m, &w, "slice(a..)", seed, step); pool[j] = (m, w); }
+                        _ => { m.slice(..b); let w = v[..b].to_vec(); vx_same(&m, &w, "slice(..b)", seed, step); pool[j] = (m, w); }
+                    }
+                }
+                3 => {
+                    let n = g.next(pool[i].1.len() + 1);
+                    let front = pool[i].0.cut(n);
+                    let fv: Vec<u8> = pool[i].1.drain(..n).collect();
+                    vx_same(&front, &fv, "cut (front)", seed, step);
+                    vx_same(&pool[i].0, &pool[i].1, "cut (rest)", seed, step);
+                    if pool.len() < 6 { pool.push((front, fv)); } else if j != i { pool[j] = (front, fv); }
+                }
+                4 => {
+                    let n = g.next(pool[i].1.len() + 1);
+                    pool[i].0.remove_front(n);
+                    pool[i].1.drain(..n);
+                    vx_same(&pool[i].0, &pool[i].1, "remove_front", seed, step);
+                }
+                5 => {
+                    let n = g.next(5);
+                    let bytes: Vec<u8> = (0..n).map(|_| { fresh = fresh.wrapping_add(1); fresh }).collect();
+                    pool[i].0.header(bytes.clone());
+                    let mut w = bytes; w.extend_from_slice(&pool[i].1); pool[i].1 = w;
+                    vx_same(&pool[i].0, &pool[i].1, "header", seed, step);
+                }
+                6 | 7 => {
+                    let other = pool[j].clone();
+                    pool[i].0.concatenate(other.0);
+                    pool[i].1.extend_from_slice(&other.1);
+                    vx_same(&pool[i].0, &pool[i].1, "concatenate", seed, step);
+                    vx_same(&pool[j].0, &pool[j].1, "concatenate (the other operand's source)", seed, step);
+                }
+                8 => {
+                    assert_eq!(pool[i].0 == pool[j].0, pool[i].1 == pool[j].1, "== disagrees with the byte strings (seed {seed}, step {step})");
+                }
+                _ => {
+                    // two messages that view the same two buffers through different windows of the same total length
+                    let (li, lj) = (pool[i].1.len(), pool[j].1.len());
+                    let (a, b, a2) = (g.next(li + 1), g.next(lj + 1), g.next(li + 1));
+                    if a + b >= a2 && a + b - a2 <= lj {
+                        let b2 = a + b - a2;
+                        let build = |x: usize, y: usize| {
+                            let (mut m, mut v) = pool[i].clone();
+                            m.slice(..x); v.truncate(x);
+                            let (mut n, mut w) = pool[j].clone();
+                            n.slice(..y); w.truncate(y);
+                            m.concatenate(n); v.extend_from_slice(&w);
+                            (m, v)
+                        };
+                        let (m1, v1) = build(a, b);
+                        let (m2, v2) = build(a2, b2);
+                        vx_same(&m1, &v1, "slice+concatenate", seed, step);
+                        vx_same(&m2, &v2, "slice+concatenate", seed, step);
+                        assert_eq!(m1 == m2, v1 == v2, "== disagrees with the byte strings for two views of the same buffers (seed {seed}, step {step})");
+                    }
+                }
+            }
+            // sharing: no other message of the pool changed
+            for (m, v) in pool.iter() {
+                assert_eq!(&m.to_vec(), v, "another message sharing storage changed (seed {seed}, step {step})");
+            }
+        }
+    }
+}
